@@ -13,7 +13,7 @@ func (h *H) randSigKey() []byte { return newSigSecret(h.rng.Bytes(32)) }
 
 // message lengths the properties single out
 func (h *H) pickLen(i int) int {
-	small := []int{0, 1, 2, 31, 32, 33, 255, 256, 257, 1000}
+	small := []int{0, 1, 2, 31, 32, 33, 63, 64, 65, 255, 256, 257, 1000}
 	if i < len(small) {
 		return small[i]
 	}
